@@ -150,7 +150,42 @@ fn probe_mut<X: TooDeeOpsMut<u32>>(x: &mut X, p: &Probe, tag: &str, written: &mu
     Ok(())
 }
 
+/// The same coordinate on an array and a window of a zero-sized element type: every checked
+/// accessor must panic exactly when the coordinate is out of range.
+fn zst_access(cols: usize, rows: usize, c: usize, r: usize) -> Verdict {
+    fn go<X: TooDeeOpsMut<()>>(x: &mut X, c: usize, r: usize, who: &str) -> Verdict {
+        let (nc, nr) = (x.num_cols(), x.num_rows());
+        let (in_c, in_r) = (c < nc, r < nr);
+        let chk = |res: Result<(), String>, ok: bool, what: &str| -> Verdict {
+            ensure!(res.is_ok() == ok, format!("zst/{}/{}", who, what), "{} with (col,row)=({},{}) on a {}x{} {} of a zero-sized element type: {} but should {}", what, c, r, nc, nr, who, if res.is_ok() { "returned" } else { "panicked" }, if ok { "return" } else { "panic" });
+            Ok(())
+        };
+        chk(catch(|| { let _ = &x[(c, r)]; }), in_c && in_r, "x[(col,row)]")?;
+        chk(catch(|| { let _ = x[r].len(); }), in_r, "x[row]")?;
+        chk(catch(|| { let _ = &x[r][c]; }), in_c && in_r, "x[row][col]")?;
+        chk(catch(|| { let _ = x.col(c).len(); }), in_c, "col(col)")?;
+        chk(catch(|| { let _ = &x.col(c)[r]; }), in_c && in_r, "col(col)[row]")?;
+        chk(catch(|| { x[(c, r)] = (); }), in_c && in_r, "x[(col,row)] = v")?;
+        chk(catch(|| { x.col_mut(c)[r] = (); }), in_c && in_r, "col_mut(col)[row] = v")?;
+        if in_r {
+            ensure!(x[r].len() == nc, format!("zst/{}/row-len", who), "x[{}] has length {} on a {}x{} {} of a zero-sized element type", r, x[r].len(), nc, nr, who);
+        }
+        Ok(())
+    }
+    let mut z: TooDee<()> = if cols == 0 || rows == 0 { TooDee::default() } else { TooDee::init(cols, rows, ()) };
+    go(&mut z, c, r, "array")?;
+    if cols > 0 && rows > 0 {
+        let mut big: TooDee<()> = TooDee::init(cols + 2, rows + 2, ());
+        go(&mut big.view_mut((1, 1), (cols + 1, rows + 1)), c, r, "mutable view")?;
+    }
+    Ok(())
+}
+
 pub fn exec_access(k: &AccessCase, ctx: &mut Ctx) -> Verdict {
+    if k.cols <= 6 && k.rows <= 6 && (k.c.wrapping_add(k.r)) % 3 == 0 {
+        zst_access(k.cols as usize, k.rows as usize, k.c as usize, k.r as usize)?;
+        ctx.class("zero-sized-companion");
+    }
     let (cols, rows) = (k.cols as usize, k.rows as usize);
     let (lay, mkind, shared_kind): (_, Option<RecvKind>, u8) = match k.recv {
         IRecv::M(rv) => (layout(cols, rows, &rv), Some(rv.kind), 0),
@@ -505,7 +540,37 @@ fn walk_mut<X: TooDeeOpsMut<u32>>(x: &mut X, chain: &[Level], o: (usize, usize),
     }
 }
 
+/// The first window of the chain on an array of a zero-sized element type.
+fn zst_window(cols: usize, rows: usize, lv: &Level) -> Verdict {
+    let mut z: TooDee<()> = if cols == 0 || rows == 0 { TooDee::default() } else { TooDee::init(cols, rows, ()) };
+    let (c, r) = z.size();
+    let w = lv.win;
+    let valid = window_valid(w, c, r);
+    let (s, e) = ((w[0] as usize, w[1] as usize), (w[2] as usize, w[3] as usize));
+    let res = if lv.mutable { catch(|| z.view_mut(s, e).size()) } else { catch(|| z.view(s, e).size()) };
+    match (res, valid) {
+        (Ok(sz), true) => {
+            let (mut ec, mut er) = (e.0 - s.0, e.1 - s.1);
+            if ec == 0 || er == 0 {
+                ec = 0;
+                er = 0;
+            }
+            ensure!(sz == (ec, er), "zst/window-size", "window {:?}..{:?} of a {}x{} array of a zero-sized element type has size {:?}", s, e, c, r, sz);
+            Ok(())
+        }
+        (Err(_), false) => Ok(()),
+        (Ok(sz), false) => fail!("zst/invalid-window-accepted", "invalid window {:?}..{:?} of a {}x{} array of a zero-sized element type returned a view of size {:?}", s, e, c, r, sz),
+        (Err(m), true) => fail!("zst/valid-window-panicked", "valid window {:?}..{:?} of a {}x{} array of a zero-sized element type panicked: {}", s, e, c, r, m),
+    }
+}
+
 pub fn exec_window(k: &WindowCase, ctx: &mut Ctx) -> Verdict {
+    if let (Some(lv), true) = (k.chain.first(), matches!(k.root, Root::Owned | Root::Thin)) {
+        if k.cols <= 6 && k.rows <= 6 {
+            zst_window(k.cols as usize, k.rows as usize, lv)?;
+            ctx.class("zero-sized-companion");
+        }
+    }
     let (cols, rows) = if k.cols == 0 || k.rows == 0 { (0usize, 0usize) } else { (k.cols as usize, k.rows as usize) };
     let n = cols * rows;
     let slack = match k.root {
@@ -629,7 +694,7 @@ impl Prop for C03 {
         // each level is generated as fractions of the previous level's size, so that it is
         // valid with high probability; a few are pushed just outside or far outside
         let lvl = || (any::<bool>(), any::<[u16; 4]>(), prop_oneof![12 => Just(0u8), 1 => Just(1u8), 1 => Just(2u8), 1 => Just(3u8)], prop::bool::weighted(0.25));
-        (0u8..=12, 0u8..=12, prop_oneof![4 => Just(Root::Owned), 1 => Just(Root::Thin), 1 => (0u8..6).prop_map(Root::SliceView), 2 => (0u8..6).prop_map(Root::SliceViewMut)], prop::collection::vec(lvl(), 1..=3))
+        (prop_oneof![49 => 0u8..=12, 1 => 0u8..=100], prop_oneof![49 => 0u8..=12, 1 => 0u8..=100], prop_oneof![4 => Just(Root::Owned), 1 => Just(Root::Thin), 1 => (0u8..6).prop_map(Root::SliceView), 2 => (0u8..6).prop_map(Root::SliceViewMut)], prop::collection::vec(lvl(), 1..=3))
             .prop_map(|(cols, rows, root, lvls)| {
                 let (cols, rows) = if cols == 0 || rows == 0 { (0, 0) } else { (cols, rows) };
                 let (mut c, mut r) = (cols as u64, rows as u64);
